@@ -28,6 +28,7 @@ type FSFile struct {
 	ino       int
 	// per-write provenance for C13: byte ranges not yet synced, with the public-call tag that wrote them
 	unsynced []writeRange
+	shadow   []Value // mapped files: cell contents at the last msync (or at mapping time)
 }
 
 type writeRange struct {
@@ -669,4 +670,33 @@ func (e *Env) copyCells() map[string][]Value {
 		out[p] = append([]Value{}, n.file.cells[:n.file.size]...)
 	}
 	return out
+}
+
+// mappedUnsynced counts bytes of a mapped file that changed since the last msync (writes through a mapping
+// are invisible to the op log; zero bytes written over zero bytes are not counted).
+func (f *FSFile) mappedUnsynced() int {
+	if !f.mapped {
+		return 0
+	}
+	n := 0
+	for i := 0; i < len(f.cells) && i < len(f.shadow); i++ {
+		if _, bus := f.cells[i].(sigbus); bus {
+			continue
+		}
+		if _, bus := f.shadow[i].(sigbus); bus {
+			if c, ok := f.cells[i].(uint64); ok && c == 0 {
+				continue
+			}
+			n++
+			continue
+		}
+		if f.cells[i] != f.shadow[i] {
+			n++
+		}
+	}
+	return n
+}
+
+func (f *FSFile) takeShadow() {
+	f.shadow = append(f.shadow[:0], f.cells...)
 }
